@@ -282,6 +282,53 @@ def run(prog, rep):
             else:
                 rep.ok('R17.5', site + '|' + f.loc(call), nontrivial=False)
 
+    # ---------------------------------------------------------------- R17.6 all validators of a field are evaluated before the cap can end the load
+    rep.rule('R17.6', 'the early throw of maxValidationErrors cannot happen from inside the fold over the validators of one field: the field that reaches '
+                      'the cap is reported with the messages of all its failing validators ("number of errors for each particular field is unlimited")', floor=1)
+
+    def can_end_load(g, depth=0, seen=None):
+        """does g (transitively, library code only) throw or call OnFinishSerialization?"""
+        seen = seen if seen is not None else set()
+        if g is None or g.id in seen or depth > 3:
+            return None
+        seen.add(g.id)
+        for y in g.walk():
+            if y['k'] == 'CXXThrowExpr':
+                return g.loc(y)
+            if y['k'] in ('CallExpr', 'CXXMemberCallExpr'):
+                c = g.callee(y) or {}
+                if c.get('n') == 'OnFinishSerialization':
+                    return g.loc(y)
+                if c.get('repo') and c.get('cls', '').endswith('SerializationContext'):
+                    r = can_end_load(prog.funcs.get(c.get('id')), depth + 1, seen)
+                    if r:
+                        return r
+        return None
+    n176 = 0
+    for f in sorted(prog.funcs.values(), key=lambda x: x.id):
+        if f.sym['kind'] != 'lambda' or 'key_value_proxy.h' not in f.file:
+            continue
+        if not any(y['k'] == 'CXXOperatorCallExpr' and y.get('op') == '()' for y in f.walk()):
+            continue
+        n176 += 1
+        hit = None
+        for y in f.walk():
+            if y['k'] == 'CXXMemberCallExpr':
+                c = f.callee(y) or {}
+                if c.get('repo') and c.get('cls', '').endswith('SerializationContext'):
+                    r = can_end_load(prog.funcs.get(c.get('id')))
+                    if r:
+                        hit = (f.loc(y), c.get('n'), r)
+        rep.touch(f)
+        if hit:
+            rep.finding('R17.6', 'visitor|early throw inside the fold over the validators', hit[0],
+                        'the visitor applied to each validator of a field calls %s(), which ends the load (%s) as soon as maxValidationErrors fields have failed: '
+                        'the remaining validators of that field are not evaluated and their messages are missing from the exception' % (hit[1], hit[2]), func=f.id)
+        else:
+            rep.ok('R17.6', 'visitor|' + f.id[-50:], nontrivial=False)
+    if n176 == 0:
+        raise AnalysisBroken('R17.6: the validation visitor in key_value_proxy.h was not found')
+
     # ---------------------------------------------------------------- R17.2
     fs = [f for f in prog.funcs.values() if f.q == 'BitSerializer::SerializationContext::AddValidationError']
     if len(fs) != 1:
